@@ -1,11 +1,12 @@
 SPECIFICATION GSpec
 CONSTANTS
-  Procs <- P3
+  Procs <- P2
   Dev <- DevAsIs
-  Scenarios <- ScnBoot3
-  Focus = "boot3"
+  Scenarios <- ScnRestoreLive
+  Focus = "restore"
 INVARIANT GenInv
 INVARIANT TxnLockAgree
-INVARIANT NoStaleSideFile
 INVARIANT DoneMeansCommitted
+INVARIANT NoStaleSideFile
+INVARIANT SidePathsMatch
 CHECK_DEADLOCK FALSE
